@@ -363,13 +363,17 @@ def checkSegMeta (d : D) (toks : List String) : IO D := do
   if d.comp.isSome then return d
   for t in toks.drop 1 do
     match (t.splitOn ":").filterMap String.toNat? with
-    | [id, db, dk] =>
+    | [id, db, dk, pr, dr] =>
       match d.st.seg? id with
       | none => pure ()
       | some s =>
         let g := garbageOf d.st s
         if db != g.1 || dk != g.2 then
           d ← fail d "INV" s!"segment {id}: metadata says {db} deleted bytes / {dk} deleted keys, the segment holds {g.1} bytes of garbage / {g.2} dead put records (compaction eligibility is computed from wrong statistics)"
+        let recs := (scan s.data).1
+        let nDel := (recs.filter (·.del)).length
+        if pr != recs.length - nDel || dr != nDel then
+          d ← fail d "INV" s!"segment {id}: metadata says {pr} put / {dr} delete records, the segment holds {recs.length - nDel} / {nDel}"
     | _ => d ← fail d "MODEL" "segmeta: malformed entry"
   pure d
 
